@@ -676,7 +676,7 @@ def sort_rows(eng, st, rows, order):
 def check_fault(eng, st, d, t, op):
     for (ft, fop, n) in d.faults:
         if ft == t.name and fop == op and (n is None or t.ninserts == n):
-            raise SqlErr(19, CONSTRAINT_TRIGGER, "zzverif injected fault on %s %s #%d" % (op, t.name, n))
+            raise SqlErr(19, CONSTRAINT_TRIGGER, "zzverif injected fault on %s %s #%s" % (op, t.name, n))
 
 
 def coerce(col, v):
@@ -850,6 +850,7 @@ def delete_rows(eng, st, d, tabs, t, pred):
         (gone if pred(r) else keep).append(r)
     if not gone:
         return tabs, 0
+    check_fault(eng, st, d, t, "delete")  # a BEFORE DELETE trigger fires per deleted row
     tabs = dict(tabs)
     tabs[t.name] = t.with_rows(keep)
     if d.fk:
@@ -1002,7 +1003,6 @@ def exec_stmt(eng, st, path, txid, stmt, args):
     if kind == "delete":
         _, table, where = stmt
         t = find_table(tabs, table)
-        check_fault(eng, st, d, t, "delete")
         tabs, n = delete_rows(eng, st, d, tabs, t, lambda r: row_matches(eng, st, t, r, where, args))
         put_tables(st, d, txid, tabs)
         return ("ok", n, 0)
@@ -1030,6 +1030,10 @@ def go_to_sql(eng, st, v, tid, codec=None):
         return BytesVal(v, "hex")
     if codec == "merkleproof":
         return ProofVal(v)
+    if codec == "aggchainproof":
+        if v is None:
+            return BytesVal(tuple(b"null"), "blob")  # json.Marshal of a nil pointer
+        raise Unsupported("aggchainproof codec with a non-nil proof")
     if codec in ("zeroisnull",):
         z = eng.zero(tid)
         if v == z and not is_sym(v):
@@ -1104,6 +1108,10 @@ def sql_to_go(eng, st, v, tid, codec=None, colname="?"):
         if isinstance(v, ProofVal):
             return v.hs
         raise ScanErr("unexpected len of hashes")
+    if codec == "aggchainproof":
+        if v is None or (isinstance(v, BytesVal) and v.bs == tuple(b"null")):
+            return None
+        raise Unsupported("aggchainproof codec reading %r" % (v,))
     if codec in ("zeroisnull",):
         if v is None:
             return eng.zero(tid)
